@@ -32,4 +32,12 @@ for line in commits[::-1]:
         sh("git -C /repo checkout -- .")
     out.append({"commit": h, "subject": subj, "checks": res, "caught_by": [p for p, v in res.items() if v["rc"] == 1]})
     print(h, subj[:60], "->", {p: v["rc"] for p, v in res.items()}, flush=True)
+if only:
+    # merge into the stored results
+    try:
+        prev = json.load(open("/verif/seeded/fix_regressions.json"))
+    except Exception:
+        prev = []
+    done = {e["commit"] for e in out}
+    out = [e for e in prev if e["commit"] not in done] + out
 json.dump(out, open("/verif/seeded/fix_regressions.json", "w"), indent=1)
